@@ -7,6 +7,8 @@ Property theorems only; proofs are in TddaVerif/Lemmas/CheckStrings.lean.
 import TddaVerif.Model.CheckStrings
 import TddaVerif.Props.C04Spec
 import TddaVerif.Lemmas.CheckStrings
+import TddaVerif.Lemmas.Encoding
+import TddaVerif.Generated.Utils
 
 namespace TddaVerif.Props.C04
 open TddaVerif.Py TddaVerif.CheckStrings
@@ -57,5 +59,37 @@ example : (checkStrings { maxPerm := 2 } (fun _ _ => none) ["x".toList, "y".toLi
   decide
 example : (checkStrings { removeLines := ["#".toList] } (fun _ _ => none)
     ["a".toList, "# c".toList] ["a".toList]).failures = 0 := by decide
+
+/-! ### the encoding files are read in (Model/Encoding.lean; the constants are regenerated from utils.py) -/
+open TddaVerif.Encoding in
+/-- the constants of the source -/
+def encConsts : Consts :=
+  { specialExt := TddaVerif.Generated.Utils.specialExt, specialEnc := TddaVerif.Generated.Utils.specialEnc,
+    dflt := TddaVerif.Generated.Utils.defaultEnc }
+
+open TddaVerif.Encoding in
+/-- with no encoding given, every file but the one special extension is read in the default encoding -/
+theorem default_encoding (path : TddaVerif.Py.Line) (h : shortExt path ≠ encConsts.specialExt) :
+    getEncoding encConsts path none = encConsts.dflt := Encoding.Lemmas.default_encoding encConsts path h
+
+open TddaVerif.Encoding in
+/-- an encoding that is given is used whatever the files are called (so both sides of a comparison are read alike) -/
+theorem explicit_encoding_wins (p q : TddaVerif.Py.Line) (e : Enc) :
+    getEncoding encConsts p (some e) = getEncoding encConsts q (some e) := rfl
+
+/-- **tie.** guess_encoding's constants and the three helper bodies are the ones the model translates: plain UTF-8 (no
+    byte-order-mark variant) unless the file is a PDF -/
+theorem tie_guess_encoding :
+    TddaVerif.Generated.Utils.specialExt = "pdf".toList ∧ TddaVerif.Generated.Utils.specialEnc = "iso-8859-1".toList ∧
+    TddaVerif.Generated.Utils.defaultEnc = "utf-8".toList ∧
+    TddaVerif.Generated.Utils.getShortExtSrc = "return os.path.splitext(path)[1].lower()[1:] if path else ''".toList ∧
+    TddaVerif.Generated.Utils.normalizeEncodingSrc = "lc = encoding.lower(); return 'utf-8' if lc == 'utf8' else lc".toList ∧
+    TddaVerif.Generated.Utils.getEncodingSrc =
+      "if encoding is None:\n    return guess_encoding(path)\nelse:\n    return normalize_encoding(encoding)".toList := by decide
+
+open TddaVerif.Encoding in
+example : getEncoding encConsts "ref/Report.PDF".toList none = "iso-8859-1".toList ∧
+    getEncoding encConsts "ref/out.csv".toList none = "utf-8".toList ∧
+    getEncoding encConsts "x.pdf".toList (some "UTF8".toList) = "utf-8".toList := by decide
 
 end TddaVerif.Props.C04
